@@ -29,6 +29,8 @@ WITH THE SOFTWARE OR THE USE OR OTHER DEALINGS IN THE SOFTWARE.
 
 #include "CgTypes.h"
 
+#include <atomic>
+
 #include <common/TypeUtils.h>
 #include <minisat/mtl/Vec.h>
 #include <pterms/PtStructs.h>
@@ -75,7 +77,7 @@ class EnodeAllocator;
 class Enode final
 {
 private:
-    static uint32_t cgid_ctr;
+    static std::atomic<uint32_t> cgid_ctr; // shared by all Egraph instances of the process
 
     ERef    root;           // The root of this enode's equivalence class
     cgId    cid;            // The congruence id of the enode (never changes)
